@@ -42,6 +42,17 @@ def mro_of(name):
     return [c.__name__ for c in getattr(builtins, name).__mro__]
 
 
+def raising_offset(lines):
+    """0-based index of the line that CPython's traceback reports for the innermost frame of the failing program"""
+    import traceback
+    try:
+        exec(compile('\n'.join(lines) + '\n', '<zoo>', 'exec'), {'__name__': '__main__'})
+    except BaseException as e:
+        frames = [f for f in traceback.extract_tb(e.__traceback__) if f.filename == '<zoo>']
+        return frames[-1].lineno - 1
+    raise ValueError('the zoo program does not fail: %r' % (lines,))
+
+
 def terminators():
     """(tag, lines of code, exception class name expected, mro names, where: 'exec'|'compile', offset of raising line)"""
     out = []
@@ -87,6 +98,20 @@ def terminators():
         ('user-keyerror-sub', ['class MyKey(KeyError):', '    pass', 'raise MyKey("k")'], 'KeyError',
          ['MyKey', 'KeyError', 'LookupError', 'Exception', 'BaseException', 'object'], 2),
     ]
+    # the failing statement sits inside try/finally or in a handler that re-raises: the line CPython's own traceback gives for
+    # the innermost student frame is the expectation (computed by running the lines in a plain interpreter)
+    structured = [
+        ('fail-in-try-finally', ['z = 0', 'try:', '    y = 1 / 0', 'finally:', '    z = 2', '    z = z + 1'], 'ZeroDivisionError'),
+        ('fail-in-try-except-reraise', ['try:', '    y = int("x")', 'except ValueError:', '    z = 3', '    raise'], 'ValueError'),
+        ('fail-in-handler', ['try:', '    y = int("x")', 'except ValueError:', '    z = [][1]', 'w = 5'], 'IndexError'),
+        ('fail-in-finally-itself', ['try:', '    y = 1', 'finally:', '    z = {}["k"]', 'w = 5'], 'KeyError'),
+        ('fail-in-with-block', ['class M:', '    def __enter__(self): return self', '    def __exit__(self, *a): return False',
+                                'with M():', '    y = 1 / 0', 'w = 5'], 'ZeroDivisionError'),
+        ('fail-in-loop-else', ['for i in range(2):', '    pass', 'else:', '    y = None.x', 'w = 5'], 'AttributeError'),
+        ('raise-from', ['try:', '    y = int("x")', 'except ValueError as e:', '    raise KeyError("k") from e'], 'KeyError'),
+    ]
+    for tag, lines, cls in structured:
+        user.append((tag, lines, cls, mro_of(cls), raising_offset(lines)))
     for tag, lines, cls, mro, off in user:
         out.append((tag, lines, cls, mro, 'exec', off))
     natural = [
@@ -296,6 +321,13 @@ def build_cases(rng, tier):
         d['grader_patches'] = True
         d['skip_model'] = True
         extra.append(d)
+        # ... and on a report of the grader's own (not the global one)
+        if not any(st['entry'] in ('next_section', 'runafter') or st.get('nested') for st in c['steps']):
+            d = copy.deepcopy(c)
+            d['tag'] = c['tag'] + '+own-report'
+            d['own_report'] = True
+            d['skip_model'] = True
+            extra.append(d)
     cases += extra
     return cases
 
@@ -338,6 +370,10 @@ def oracle_c05(case, steps):
 
 
 def oracle_c04(case, steps):
+    for i, ob in enumerate(steps):
+        if ob.get('stray_on_main_report'):
+            return ('feedback-on-another-report', '%s: step %d attached %d feedback object(s) to the global report although the sandbox '
+                    'belongs to a report of its own' % (case['tag'], i, ob['stray_on_main_report']))
     if case['tag'].startswith('tamper:') or case['tag'].startswith('instructor-mocks:'):
         # whatever the student does to the patched objects, nothing escapes into the grader
         for i, ob in enumerate(steps):
@@ -373,7 +409,7 @@ def correspondence(ctx):
     rng = ctx.rng
     cases = build_cases(rng, ctx.tier)
     res = vlib.run_impl('c05_impl.py', {'cases': [{'files': c['files'], 'steps': c['steps'], 'sections': c.get('sections', False), 'mocks': c.get('mocks', []),
-                                                     'grader_patches': c.get('grader_patches', False)} for c in cases]}, timeout=1500)
+                                                     'grader_patches': c.get('grader_patches', False), 'own_report': c.get('own_report', False)} for c in cases]}, timeout=1500)
     ex_site, co_site = sites()
     items = []
     for case, steps in zip(cases, res):
